@@ -14,9 +14,9 @@ L_NOTE = "Trusts CPython, z3 5.1, the pylift interpreter (vf/pylift/core.py; gua
 X_NOTE = "Trusts CPython, CrossHair 0.0.110's models of built-ins, z3 5.1, pyrlp/eth-hash as installed, the independent oracle vf/oracle/mpt.py (validated on two ethereum/tests vectors). Stored keys/values come from finite pools chosen by symbolic indices (exhausted by the solver-driven path search); pre-states are oracle-built canonical states, longer histories are covered by induction over single steps while contents stay in the family. Everything outside the stated bounds is not claimed."
 CHECKS.update({
     "C01": ("X", "symbolic execution (CrossHair+z3): solver-exhausted one-step transitions from every canonical state of a contents family + genuinely symbolic lookup keys on canonical tries; native replay",
-            "Bounded symbolic model checking of map semantics: every pool operation (method/dict syntax, direct or batched, prune on/off) from every canonical state of the family, batches committed/aborted, and get/exists/in for a symbolic byte-string key (<=3/4 bytes) on every trie of the query family.", X_NOTE, "4/C01"),
+            "Bounded symbolic model checking of map semantics: every pool operation (method/dict syntax, direct or batched, prune on/off) from every canonical state of the family, batches committed/aborted, get/exists/in for a symbolic byte-string key (<=3/4 bytes) on every trie of the query family, and a set() whose 32-byte value content is symbolic.", X_NOTE, "4/C01"),
     "C02": ("X", "symbolic execution (CrossHair+z3): solver-exhausted one-step transitions, root compared with an independent Yellow-Paper MPT implementation",
-            "Bounded symbolic model checking: after every pool operation from every canonical state the root equals the Yellow-Paper root of the updated contents (values targeted at RLP lengths 31/32/33); history/order/batching/pruning independence by induction.", X_NOTE, "4/C02"),
+            "Bounded symbolic model checking: after every pool operation from every canonical state the root equals the Yellow-Paper root of the updated contents (values targeted at RLP lengths 31/32/33, plus steps whose value content is a symbolic byte string with keccak replaced by an injective interning function on both sides); history/order/batching/pruning independence by induction.", X_NOTE, "4/C02"),
     "C05": ("X", "symbolic execution (CrossHair+z3): batch contents, exit kind, abort position and failing commit write are symbolic and exhausted; all-or-nothing specification checked natively on each path",
             "Bounded symbolic model checking / fault enumeration by solver: batches of <=2 (3) operations from canonical states, normal exit, exception after every operation, every commit write failing; root, db, ref counts and later behaviour compared with the specification.", X_NOTE, "4/C05"),
     "C06": ("X", "symbolic execution (CrossHair+z3): solver-exhausted one-step transitions and batches on pruning tries; db and ref counts compared with the oracle's exact live-node set and true counts",
@@ -28,15 +28,15 @@ CHECKS.update({
     "C10": ("X", "symbolic execution (CrossHair+z3): symbolic successor query through NodeIterator.next; keys/items/values/nodes compared with the sorted contents and the canonical pre-order",
             "Bounded symbolic model checking: next(k) equals the strict successor for a symbolic byte string k on every trie of the family; keys/items/values are exactly the sorted contents; nodes() is the pre-order of the canonical trie and agrees with traverse().", X_NOTE, "4/C10"),
     "C04": ("X", "symbolic execution (CrossHair+z3): operation chosen by symbolic indices, failing database write position a symbolic int decided by the solver at every write; append-only / content-addressed / old-roots-readable checked on each path",
-            "Bounded symbolic model checking with solver-enumerated fault positions: two tries share one database; every pool operation (direct or one-op batch) with every failing write position leaves all earlier entries intact, new entries hash-keyed, every earlier root (fresh trie, at_root, second view) fully readable, the current root readable.", X_NOTE, "4/C04"),
+            "Bounded symbolic model checking with solver-enumerated fault positions: two tries share one database; every pool operation (direct, one-op batch, batch after an earlier batch, batch that re-creates the other trie's nodes) with every failing write position leaves all earlier entries intact, new entries hash-keyed, every earlier root (fresh trie, at_root, second view) fully readable, the current root readable.", X_NOTE, "4/C04"),
     "C07": ("X", "symbolic execution (CrossHair+z3): one symbolic bool per node body, decided lazily by the solver at the first read of that node; reported hash / prefix / atomicity / retry convergence checked against the canonical-tree oracle",
-            "Bounded symbolic model checking over all subsets of missing nodes (split lazily by the solver along each operation's route): get/exists/set/delete/traverse/traverse_from, inside and outside squash_changes, prune on/off, with the retry-after-supplying-the-reported-node loop.", X_NOTE, "4/C07"),
+            "Bounded symbolic model checking over all subsets of missing nodes (split lazily by the solver along each operation's route): get/exists/set/delete/traverse/traverse_from, inside and outside squash_changes, prune on/off (incl. a pruning trie freshly opened on the database), with the retry-after-supplying-the-reported-node loop and with a different write following the first failure.", X_NOTE, "4/C07"),
     "C09": ("X", "symbolic execution (CrossHair+z3): the walk schedule (fog query kind, query key, interleaved mutations) is a symbolic list exhausted by the solver; each schedule runs natively against the real trie/fog/cache",
             "Bounded symbolic model checking over schedules of <=3 (4) events: termination within a step bound, exact contents met on an unchanging trie, every constant key met and nothing met that was never stored under mutations; 4 navigation configurations.", X_NOTE, "4/C09"),
     "C11": ("X", "symbolic execution (CrossHair+z3): second operation, its arguments and query keys are symbolic indices exhausted by the solver from (a sample of) all antichains reachable by one explore(); set-model oracle",
             "Bounded symbolic model checking of HexaryTrieFog against a set model: explore / mark_all_complete / commuting explorations / mixed-length rejection / nearest_unknown / nearest_right / immutability / serialisation round trip.", X_NOTE, "4/C11"),
     "C18": ("X", "symbolic execution (CrossHair+z3): the ill-typed argument is a symbolic value of a union type (type and value chosen by the solver), wrong sizes are symbolic lengths / ints, executed through every listed entry point",
-            "Bounded symbolic model checking: 49 + 13 + 11 entry points; refusal with the stated exception type, snapshot equality of all structures afterwards, and a fixed valid continuation giving the results of a twin run without the refused call.", X_NOTE, "4/C18"),
+            "Bounded symbolic model checking: 49 + 13 + 13 entry points; refusal with the stated exception type, snapshot equality of all structures afterwards, and a fixed valid continuation giving the results of a twin run without the refused call.", X_NOTE, "4/C18"),
     "C14": ("L", "AST-to-SMT symbolic interpretation of trie/smt.py (pylift): keys as bit-vectors, values/default as uninterpreted atoms, keccak as injective UFs; z3 unsat of the negated property per merged path + coverage closure; native replay of models",
             "Bounded symbolic model checking: for key_size 1 (<=2-3 ops) and 2 (1-2 ops), all keys / query keys / values at once: get/exists/branch/calc_root/returned hashes/from_db agree with 'last write or default', clearing restores the initial root, write order is irrelevant.", L_NOTE, "4/C14"),
     "C15": ("L", "AST-to-SMT symbolic interpretation of SparseMerkleProof + SparseMerkleTree (pylift); one path per divergence bit, coverage closure; z3 unsat per path; native replay",
